@@ -234,37 +234,43 @@ def gen_stmt(env, budget, depth):
         if rv and ch.flag():
             return [R.Assign(ch.pick(assignable(env)), R.CallE(name, args))], 1
         return [R.Call(name, args, bracket=ch.flag(0.3))], 1
-    if k == 'if':
-        body, c = gen_block(env, budget - 1, depth - 1, minimum=1)
-        return [R.If(gen_cond(env), body)], 1 + c
-    if k == 'ifelse':
-        cond = gen_cond(env)
-        b1, c1 = gen_block(env, max(1, (budget - 1) // 2), depth - 1, minimum=1)
-        b2, c2 = gen_block(env, max(1, budget - 1 - c1), depth - 1, minimum=1)
-        return [R.If(cond, b1, b2)], 1 + c1 + c2
-    env.loop_depth += 1
+    saved_vars = list(env.vars)
     try:
-        if k == 'repeat_n':
-            n = env.num('count')
+        if k == 'if':
+            cond = gen_cond(env)
             body, c = gen_block(env, budget - 1, depth - 1, minimum=1)
-            return [R.Repeat('count', body, n=n)], 1 + c
-        if k == 'while':
-            cv = env.fresh('c')
-            pre = R.Assign(cv, env.num('count'))
-            env.vars.append(cv)
-            body, c = gen_block(env, budget - 1, depth - 1, minimum=1)
-            body = body + [R.Assign(cv, R.Bin('-', R.Var(cv), N(value=1)))]
-            return [pre, R.Repeat('while', body, cond=R.Bin('>', R.Var(cv), N(value=0)))], 2 + c
-        if k == 'with':
-            iv = env.fresh('i')
-            a, b = env.num('int'), env.num('int')
-            env.vars.append(iv)
-            env.readonly.add(iv)
-            body, c = gen_block(env, budget - 1, depth - 1, minimum=1)
-            env.vars.remove(iv)
-            return [R.Repeat('with', body, var=iv, a=a, b=b)], 1 + c
+            return [R.If(cond, body)], 1 + c
+        if k == 'ifelse':
+            cond = gen_cond(env)
+            b1, c1 = gen_block(env, max(1, (budget - 1) // 2), depth - 1, minimum=1)
+            env.vars = list(saved_vars)
+            b2, c2 = gen_block(env, max(1, budget - 1 - c1), depth - 1, minimum=1)
+            return [R.If(cond, b1, b2)], 1 + c1 + c2
+        env.loop_depth += 1
+        try:
+            if k == 'repeat_n':
+                n = env.num('count')
+                body, c = gen_block(env, budget - 1, depth - 1, minimum=1)
+                return [R.Repeat('count', body, n=n)], 1 + c
+            if k == 'while':
+                cv = env.fresh('c')
+                pre = R.Assign(cv, env.num('count'))
+                env.vars.append(cv)
+                env.readonly.add(cv)
+                body, c = gen_block(env, budget - 1, depth - 1, minimum=1)
+                body = body + [R.Assign(cv, R.Bin('-', R.Var(cv), N(value=1)))]
+                return [pre, R.Repeat('while', body, cond=R.Bin('>', R.Var(cv), N(value=0)))], 2 + c
+            if k == 'with':
+                iv = env.fresh('i')
+                a, b = env.num('int'), env.num('int')
+                env.vars.append(iv)
+                env.readonly.add(iv)
+                body, c = gen_block(env, budget - 1, depth - 1, minimum=1)
+                return [R.Repeat('with', body, var=iv, a=a, b=b)], 1 + c
+        finally:
+            env.loop_depth -= 1
     finally:
-        env.loop_depth -= 1
+        env.vars = saved_vars
     raise ValueError(k)
 
 
@@ -578,4 +584,49 @@ def loop_program(forms=None, nest=True, in_routine=False):
         else:
             stmts += loop + tail
         return (pop, stmts)
+    return gen
+
+
+# ---------------------------------------------------------------- C05 -------
+def compound_def_program():
+    """Routine definitions at every top-level position and inside if / else /
+    repeat bodies (the compiler accepts them), with statements around them."""
+    def gen(ch):
+        env = Env(ch)
+        stmts = prologue(env, regs=False)
+        mark = [0]
+
+        def m():
+            mark[0] += 1
+            return R.Print(N(value=100 + mark[0]), ln=True)
+        rdef = R.RoutineDef('r', ['p'] if ch.flag() else [],
+                            [m()] + ([R.If(R.Bin('>', R.Var('x'), env.num('val')), [m()], [m()])] if ch.flag() else [])
+                            + [R.Action('on', 'all')])
+        call = R.Call('r', [env.num('val')] if rdef.params else [])
+        where = ch.pick(['top-first', 'top-mid', 'if', 'else', 'if-mid', 'repeat', 'while', 'nested-if'])
+        pre = [m()] if ch.flag() else []
+        post = [m()] if ch.flag() else []
+        inner = pre + [rdef] + post
+        if ch.flag(0.4):
+            inner = inner + [call]
+        cond = R.Bin('>', R.Var('x'), env.num('val'))
+        if where == 'top-first':
+            body = [rdef, m(), call]
+        elif where == 'top-mid':
+            body = [m(), rdef, m(), call]
+        elif where == 'if':
+            body = [R.If(cond, inner), m(), call]
+        elif where == 'if-mid':
+            body = [R.If(cond, inner, [m()]), m(), call]
+        elif where == 'else':
+            body = [R.If(cond, [m()], inner), m(), call]
+        elif where == 'repeat':
+            body = [R.Repeat('count', inner, n=env.num('count2')), m(), call]
+        elif where == 'while':
+            body = [R.Assign('w', env.num('count2')),
+                    R.Repeat('while', inner + [R.Assign('w', R.Bin('-', R.Var('w'), N(value=1)))],
+                             cond=R.Bin('>', R.Var('w'), N(value=0))), m(), call]
+        else:
+            body = [R.If(cond, [m(), R.If(R.Bin('<', R.Var('x'), env.num('val')), inner), m()]), m(), call]
+        return stmts + body + [m()]
     return gen
